@@ -107,7 +107,9 @@ def check_graph(plan, cases):
         tm = transaction.TransactionManager()
         conn = db.open(tm)
         other = conn.get_connection('other')
-        foreign = Node('foreign')
+        # the object in the other database: alternately of a plain class and of a class with __getnewargs__ (whose
+        # references carry no class information - a different branch of persistent_id)
+        foreign = (NodeArgs if len(nodes) % 4 == 0 else Node)('foreign')
         other.root()['f'] = foreign
         tm.commit()
         objs = materialise(plan, foreign if len(nodes) % 2 == 0 else None)
@@ -223,9 +225,74 @@ def extra_scenarios(cases):
     from ZODB.FileStorage import FileStorage
     d = tempfile.mkdtemp(prefix='c14-')
     try:
-        return _weak_into_missing_database(d, cases, FileStorage)
+        r = _weak_into_missing_database(d, cases, FileStorage)
     finally:
         shutil.rmtree(d, ignore_errors=True)
+    if r.get('found'):
+        return r
+    return missing_class_comes_back(r['cases'])
+
+
+def missing_class_comes_back(cases):
+    """a class that was missing (its objects loaded as placeholders that keep their state) loads as the real class again
+    as soon as its module is importable - also when nobody imported it in between"""
+    import importlib
+    import os
+    import shutil
+    import sys
+    import tempfile
+    d = tempfile.mkdtemp(prefix='c14mod-')
+    modname = 'c14_missing_mod_%d' % (abs(hash(d)) % 10 ** 8)
+    try:
+        with open(os.path.join(d, modname + '.py'), 'w') as f:
+            f.write('from persistent import Persistent\n\n\nclass Item(Persistent):\n    def __init__(self, v):\n'
+                    '        self.v = v\n        self.child = None\n')
+        sys.path.insert(0, d)
+        importlib.invalidate_caches()
+        mod = importlib.import_module(modname)
+        st = MappingStorage()
+        db = ZODB.DB(st)
+        tm = transaction.TransactionManager()
+        conn = db.open(tm)
+        a, b = mod.Item('a'), mod.Item('b')
+        a.child = b
+        conn.root()['item'] = a
+        tm.commit()
+        conn.close()
+        # the module disappears
+        sys.path.remove(d)
+        del sys.modules[modname]
+        importlib.invalidate_caches()
+        c2 = db.open(tm)
+        c2.cacheMinimize()
+        broken = c2.root()['item']
+        kept = getattr(broken, '__Broken_state__', None) or getattr(broken, '__dict__', {})
+        cases += 1
+        if type(broken).__name__ != 'Item' or 'v' not in str(kept):
+            return fail({'scenario': 'class missing at load time'}, 'a placeholder that keeps the state',
+                        'type %s, state %r' % (type(broken).__name__, kept), cases)
+        c2.close()
+        # the module is importable again (nobody imports it)
+        sys.path.insert(0, d)
+        importlib.invalidate_caches()
+        db2 = ZODB.DB(st)
+        c3 = db2.open(transaction.TransactionManager())
+        item = c3.root()['item']
+        cases += 1
+        ok = type(item).__module__ == modname and getattr(item, 'v', None) == 'a' and \
+            getattr(getattr(item, 'child', None), 'v', None) == 'b'
+        c3.close()
+        if not ok:
+            return fail({'scenario': 'objects of a class whose module was missing at an earlier load; the module is '
+                         'importable again (not imported by anyone); a fresh DB and connection load the graph'},
+                        'real Item instances with their state', 'type %s.%s, attributes %r' % (
+                            type(item).__module__, type(item).__name__, sorted(getattr(item, '__dict__', {}))), cases)
+    finally:
+        if d in sys.path:
+            sys.path.remove(d)
+        sys.modules.pop(modname, None)
+        shutil.rmtree(d, ignore_errors=True)
+    return {'found': False, 'cases': cases}
 
 
 def _weak_into_missing_database(d, cases, FileStorage):
